@@ -9,7 +9,7 @@ MANIFEST_BASE = {
         "guard": "verif",
         "enable": "go build/test -tags verif (the driver passes it on every build of /repo code)",
         "baseline_off_cmd": "cd /repo && go build ./... && go test -vet=off -count=1 -timeout 25m ./...",
-        "source_commits": ["1a24631"],
+        "source_commits": ["1a24631", "b1bce3c"],
         "add_only": True,
     },
     "engines": [
